@@ -4,6 +4,8 @@ import (
 	"fmt"
 	"go/token"
 	"go/types"
+	"regexp"
+	"sort"
 	"reflect"
 	"strconv"
 	"strings"
@@ -14,6 +16,8 @@ import (
 func init() { register("C01", checkC01) }
 
 func checkC01(p *Prog, r *Report) {
+	r.rule("C01.check-complete: SoftResource.check, which Get runs before MarshalResource reads a soft resource's values, cannot return before its loops that zero-fill missing and drop stale fields (shared with C17)")
+	checkSoftCheckComplete(p, r, "C01")
 	r.rule("C01.type-lookup: Schema.GetType / HasType find a type by one exact equality test between a type's Name and the requested name and call nothing else (the comparison AddType uses to keep names unique)")
 	checkTypeLookup(p, r, "C01")
 	r.rule("R1 kind table: GetZeroValue defines one Go type per kind (and its pointer for nullable); GetAttrTypeString/GetAttrType are inverse and classify the %T spelling of each of the 28 types; scenario evaluation of Attr.UnmarshalToType for all 28 (kind, nullable) pairs shows every successful decode boxes exactly that type; SoftResource.Set's gate compares kind and nullability of fmt's %T of the value with the attribute")
@@ -21,6 +25,7 @@ func checkC01(p *Prog, r *Report) {
 	r.rule("C01.marshal-plumbing: MarshalResource stores under \"id\" the resource's Get(\"id\"), under \"type\" its GetType().Name, under each selected attribute's name the unmodified result of Get(that name), and builds each relationship identifier from Get(rel.FromName) (the string, or each element of the []string) and rel.ToType")
 	r.rule("C01.nullness / C01.decoded-value (scenario evaluation of Attr.UnmarshalToType, 28 scenarios): on every successful path on which the raw value is not the literal null the result is not the kind's nil pointer, and for string, time and bytes kinds it is the variable encoding/json decoded the raw bytes into")
 	r.rule("C01.unmarshal-plumbing: UnmarshalResource sets the id as decoded, each attribute from UnmarshalToType's result for that attribute, each relationship from its decoded linkage (declared per iteration) in payload order, and calls Set nowhere else")
+	r.rule("C01.rejection-provenance (same 28 scenarios): every path of Attr.UnmarshalToType that returns an error either found the raw value to be the literal null or took the error of the kind's standard-library decoder applied to the raw bytes (for bool: compared the bytes with the literals true/false only); no other test of the raw bytes rejects a value")
 	r.rule("R5 tags: every member MarshalResource writes that carries resource state (id, type, attributes, relationships; data; identifier id/type) has a same-named json tag on the skeleton struct UnmarshalResource decodes into")
 	r.assume("encoding/json, strconv, time and encoding/base64 invert each other on every value of the 28 types (strings with HTML specials, sub-second zoned times, uint64 > 2^63): standard-library contracts; reflect.Value.Set stores the value it is given")
 	r.notCovered("value-level equality after the round trip; a non-nil pointer to a nil byte slice (outside the domain)")
@@ -104,10 +109,71 @@ func checkC01(p *Prog, r *Report) {
 		r.floor("value decode scenarios", nv, 28)
 	}
 
+	checkRejectionProvenance(p, r, kt)
 	checkMarshalPlumbing(p, r, "C01")
 	checkUnmarshalPlumbing(p, r, "C01")
 	checkResourceTags(p, r)
 }
+
+func checkRejectionProvenance(p *Prog, r *Report, kt *kindTable) {
+	f := p.Fn("(Attr).UnmarshalToType")
+	if f == nil {
+		return
+	}
+	n := 0
+	for _, row := range kt.rows {
+		bt, isBasic := row.Go.Underlying().(*types.Basic)
+		isBool := isBasic && bt.Info()&types.IsBoolean != 0
+		for _, nullable := range []bool{false, true} {
+			outs, _ := kt.unmarshalOutcomes(row.Val, nullable)
+			key := fmt.Sprintf("UnmarshalToType:%s:nullable=%v", row.Name, nullable)
+			bad := ""
+			for _, o := range outs {
+				if o.ret == nil || len(o.results) != 2 || o.results[1].k == aNil {
+					continue
+				}
+				n++
+				justified := false
+				onlyLiterals := true
+				var conds []string
+				for k, v := range o.decided {
+					conds = append(conds, fmt.Sprintf("%s=%v", k, v))
+					if !strings.Contains(k, "data") {
+						continue
+					}
+					if strings.Contains(k, `string(data) == "null"`) {
+						if v {
+							justified = true
+						}
+						continue
+					}
+					if m := decoderErrRe.FindStringSubmatch(k); m != nil {
+						if v == (m[1] == "!=") {
+							justified = true
+						}
+						continue
+					}
+					if !literalCmpRe.MatchString(k) {
+						onlyLiterals = false
+					}
+				}
+				if !justified && isBool && onlyLiterals {
+					justified = true
+				}
+				if !justified {
+					sort.Strings(conds)
+					bad = strings.Join(conds, ", ")
+				}
+			}
+			r.decide(bad == "", "C01.rejection-provenance", key, p.pos(f.Pos()), "every rejection is the literal null or the standard-library decoder's own error",
+				"a raw value of kind "+row.Str+" is rejected on a path on which it is neither the literal null nor refused by the kind's standard-library decoder ("+bad+"): values the kind can hold may not come back from their own JSON form")
+		}
+	}
+	r.floor("rejection paths", n, 28)
+}
+
+var decoderErrRe = regexp.MustCompile(`^\((?:strconv|encoding/json|time|encoding/base64)\.\w+\(.*data.*\)(?:#\d+)? (!=|==) nil\)$`)
+var literalCmpRe = regexp.MustCompile(`^\(string\(data\) (?:==|!=) "(?:true|false|null)"\)$`)
 
 // checkSetGate: SoftResource.Set stores an attribute value iff
 // GetAttrType(fmt.Sprintf("%T", v)) equals the attribute's (kind, nullable).
